@@ -89,6 +89,8 @@ ORACLE_ONLY = {
     'dietrich': {'poly_order': 2, 'smooth_half_window': 2, 'max_iter': 3},
 }
 METHODS_2D = {
+    'pspline_iasls': {'num_knots': 5, 'lam': 10, 'max_iter': 2},
+    'adaptive_minmax': {'poly_order': 1, 'method_kwargs': {'max_iter': 2}},
     'poly': {'poly_order': 2},
     'modpoly': {'poly_order': 2, 'max_iter': 3},
     'pspline_asls': {'num_knots': 5, 'lam': 10, 'max_iter': 2},
@@ -124,6 +126,16 @@ def make_obj(kind):
 
 def make_obj2(kind):
     from pybaselines import Baseline2D
+    if '+' in kind:                      # 'xz+s5' spline cache for 5 knots, 'xz+l5' also the lazy full basis
+        base, w = kind.split('+')
+        f = make_obj2(base)
+        with warnings.catch_warnings():
+            warnings.simplefilter('ignore')
+            if w[0] == 's':
+                f.pspline_asls(ydata2(98), num_knots=int(w[1:]), lam=10, max_iter=1)
+            else:
+                f.pspline_iasls(ydata2(98), num_knots=int(w[1:]), lam=10, max_iter=1)
+        return f
     if kind == 'noxz':
         return Baseline2D()
     x, z = np.linspace(0, 5, 12), np.linspace(-1, 3, 10)
@@ -365,12 +377,14 @@ def schedules_for(ctx, kind, name, nthreads, steps, exhaustive, sampled):
 
 
 def finding_key(kind, name, two_d):
+    if name == 'adaptive_minmax':
+        return KEY_AMM            # 1-D and 2-D: the same sub-call pattern through one shared helper
     if two_d and kind in ('noxz', 'xonly', 'zonly'):
         return KEY_FIRST_2D       # repaired by d3d4e98 (a `fixed:` line): a hit is a VIOLATION again
     if not two_d and kind == 'nox':
         return KEY_FIRST_1D       # repaired by f1bf5e1 (a `fixed:` line): a hit is a VIOLATION again
     if name == 'adaptive_minmax':
-        return KEY_AMM
+        return KEY_AMM            # 1-D and 2-D: the same sub-call pattern through one shared helper
     return None
 
 
@@ -585,7 +599,8 @@ def oracle(ctx, budget):
             try:
                 ser = serial_reference(kind, name, 2, two_d=True)
                 steps = max(sum(1 for e in ser['events'][0] if e[0] in 'RW'), 8)
-                scheds = [[0] * k + [1] * (steps + 5) for k in range(0, min(steps, 14) + 1)]
+                kmax = steps if kind == 'xz' else min(steps, 14)
+                scheds = [[0] * k + [1] * (steps + 5) for k in range(0, kmax + 1, 3 if (name == 'adaptive_minmax' and ctx.tier == 'quick') else 1)]
                 scheds += [[ctx.rng.randrange(2) for _ in range(2 * steps)] for _ in range(3 * budget)]
                 for nt, ss in ((2, scheds), (3, [[ctx.rng.randrange(3) for _ in range(3 * steps)] for _ in range(2 * budget)])):
                     if nt == 3:
@@ -746,6 +761,175 @@ def model2d_cases(ctx):
 
 
 
+# ------------------------------------------------------------------------------------------------
+# 2-D spline cache + lazy SplineBasis2D.basis: correspondence with coq/C04/Model2DS.v
+
+HEADERS = """From Coq Require Import ZArith List Bool.
+From PB Require Import lib.CaseUtil C04.Sched C04.Model2DS.
+Import ListNotations.
+Open Scope Z_scope.
+"""
+CELLS = {'x': 0, 'z': 1, 'shape': 2, 'spline': 3, 'lazyb': 4}
+CHECKS = """
+Definition ok (c : stateS * list nat * list Z * list Z * list Z) : bool :=
+  let '(st, sched, log, outs, ab) := c in
+  let fin := run_schedS sched st in
+  zl_eqb (map outcomeS (snd fin)) outs && zl_eqb (sched_logS sched st) log && zl_eqb (abstractionS (fst fin)) ab.
+"""
+
+
+def abstractionS(f):
+    b = f.__dict__.get('_spline_basis')
+    if b is None:
+        return [-1, -1, -1]
+    return [int(b.num_knots[0]), int(b.spline_degree[0]), 0 if b.__dict__.get('_basis') is None else 1]
+
+
+def spline_region(full):
+    """Index (in the R/W-only log) where the thread's _setup_spline starts, and the segments from there on."""
+    n_rw, start, segs = 0, None, []
+    i, m = 0, len(full)
+    while i < m:
+        e = full[i]
+        if start is None:
+            if e[0] == 'M' and e[1] == 'setup' and e[2][0] == '_setup_spline':
+                start = n_rw
+                d = _bind_setup('_setup_spline', e[2][1], e[2][2])
+                j = i + 1
+                if not (j < m and full[j][:3] == ('R', 'fit2', 'shape')):
+                    raise Unparsed('2-D _setup_spline does not start with a read of _shape')
+                segs.append('UseShapeS')
+                while j < m and not (full[j][0] == 'E' and full[j][1] == 'setup'):
+                    j += 1
+                segs.append(f'Spl2 {zl(int(np.ravel(d["num_knots"])[0]))} {zl(int(np.ravel(d["spline_degree"])[0]))}')
+                n_rw += sum(1 for x in full[i:j] if x[0] in 'RW')
+                i = j + 1
+                continue
+            if e[0] in 'RW':
+                n_rw += 1
+            i += 1
+            continue
+        if e[0] in ('E', 'P'):
+            i += 1
+        elif e[:3] == ('R', 'fit2', 'shape'):
+            segs.append('UseShapeS')
+            i += 1
+        elif e[:3] == ('R', 'basis', 'lazyb'):
+            i += 1
+            if i < m and full[i][:3] == ('W', 'basis', 'lazyb'):
+                i += 1
+            if not (i < m and full[i][:3] == ('R', 'basis', 'lazyb')):
+                raise Unparsed('lazy basis: test not followed by the returning read')
+            segs.append('Lazy2')
+            i += 1
+        else:
+            raise Unparsed(f'2-D spline region: access outside the modelled protocol: {e}')
+    if start is None:
+        raise Unparsed('no _setup_spline in a 2-D spline method')
+    return start, segs
+
+
+def spline2d_cases(ctx):
+    lits, meta = [], []
+    for kind in ('xz', 'noxz', 'xz+s5', 'xz+s4', 'xz+l5'):
+        for name in ('pspline_iasls', 'pspline_asls'):
+            for nt in (2, 3):
+                ser = serial_reference(kind, name, nt, two_d=True)
+                if ser['unmodelled']:
+                    ctx.broke('correspondence:unmodelled-shared-write-2d', f'{name} on {kind}: {sorted(set(ser["unmodelled"]))[:6]}')
+                try:
+                    regs = [spline_region(ev) for ev in ser['events']]
+                except Unparsed as e:
+                    ctx.broke('correspondence:program-parse-2d-spline', f'{name} on {kind}: {e}')
+                    continue
+                ctx.traces += nt
+                ab0 = abstractionS(make_obj2(kind))
+                sh0 = 'coldS' if ab0[0] < 0 else f'(warmS ({zl(ab0[0])}, {zl(ab0[1])}, {"true" if ab0[2] else "false"}))'
+                st = f'({sh0}, [{"; ".join("init_localS [" + "; ".join(r[1]) + "]" for r in regs)}])'
+
+                def filt(executed, logs):
+                    sched, glog, ptr = [], [], [0] * nt
+                    starts = None
+                    return sched, glog
+
+                def lit(executed, logs_full, outs, ab):
+                    starts = []
+                    for t in range(nt):
+                        try:
+                            starts.append(spline_region(logs_full[t])[0])
+                        except Unparsed:
+                            starts.append(10 ** 9)     # the thread died before reaching _setup_spline
+                    rw = [[e for e in lg if e[0] in 'RW'] for lg in logs_full]
+                    sched, glog, ptr = [], [], [0] * nt
+                    for t in executed:
+                        if ptr[t] < len(rw[t]):
+                            if ptr[t] >= starts[t]:
+                                e = rw[t][ptr[t]]
+                                sched.append(t)
+                                glog.append(100 * t + CELLS.get(e[2], 9) + (10 if e[0] == 'W' else 0))
+                            ptr[t] += 1
+                    return (f'({st}, [{"; ".join(str(t) + "%nat" for t in sched)}], {zlist(glog)}, '
+                            f'{zlist(outs)}, {zlist(ab)})')
+
+                f = make_obj2(kind)
+                for i in range(nt):
+                    getattr(f, name)(ydata2(i), **METHODS_2D[name])
+                ser_exec = []
+                for i, ev in enumerate(ser['events']):
+                    ser_exec += [i] * sum(1 for e in ev if e[0] in 'RW')
+                lits.append(lit(ser_exec, ser['events'], [0] * nt, abstractionS(f)))
+                meta.append({'kind': kind, 'method': name, 'threads': nt, 'schedule': 'serial', 'two_d': True})
+                ctx.case(('serial2ds', kind, name, nt), kind=f'program2d:{name}:{kind}')
+                steps = sum(1 for e in ser['events'][0] if e[0] in 'RW')
+                if nt == 2:
+                    scheds = [[0] * k + [1] * (steps + 5) for k in range(0, steps + 1)]
+                    scheds += [[ctx.rng.randrange(2) for _ in range(2 * steps)] for _ in range(ctx.n(3, 25))]
+                else:
+                    scheds = [[ctx.rng.randrange(3) for _ in range(3 * steps)] for _ in range(ctx.n(3, 25))]
+                for sched in scheds:
+                    f = make_obj2(kind)
+                    jobs = [call_job(f, name, METHODS_2D[name], ydata2(i)) for i in range(nt)]
+                    try:
+                        con = T.run_concurrent([f], jobs, sched)
+                    except T.SchedulerBroken as e:
+                        ctx.broke('scheduler', f'2d {name} on {kind}: {e}')
+                        break
+                    outs = [outcome_code(con['results'][i], ser['results'][i]) for i in range(nt)]
+                    case = {'kind': kind, 'method': name, 'threads': nt, 'schedule': con['executed'], 'two_d': True,
+                            'outcomes': outs}
+                    sw = sum(1 for a, b in zip(con['executed'], con['executed'][1:]) if a != b)
+                    ctx.case(('replay2ds', kind, name, nt, tuple(con['executed'])), nontrivial=sw >= 1,
+                             kind=f'replay2d:{name}:{kind}:{nt}t')
+                    if any(outs):
+                        ctx.fail(finding_key(kind, name, True) or f'race:2d:{name}:{kind.split("+")[0]}',
+                                 '2-D ' + describe(kind, name, outs, con), case)
+                    if con['unmodelled']:
+                        ctx.broke('correspondence:unmodelled-shared-write-2d', f'{name} on {kind}: {sorted(set(con["unmodelled"]))[:6]}')
+                    lits.append(lit(con['executed'], con['logs_full'], [min(o, 2) for o in outs], abstractionS(f)))
+                    meta.append(case)
+    ob = 'correspondence:spline-cache-2d+lazy-basis(access sequences, outcomes and final state: model = real threads)'
+    ctx.obligations.append(ob)
+    bad = False
+    per = 250
+    for s0 in range(0, len(lits), per):
+        sh = lits[s0:s0 + per]
+        text = HEADERS + CHECKS + ('\nDefinition cases : list (stateS * list nat * list Z * list Z * list Z) := [\n'
+                                   + ';\n'.join('  ' + l for l in sh) + '\n].\nEval vm_compute in (bad ok cases).\n')
+        vals = ctx.coq_eval(f'spline2d{s0 // per}', text)
+        if vals is None:
+            bad = True
+        elif not vals or not vals[0].startswith('(0'):
+            bad = True
+            import re
+            mm = re.match(r'\((\d+)(?:%nat)?, \[(.*)\]\)', vals[0]) if vals else None
+            idx = [int(t.replace('%nat', '')) for t in (mm.group(2).split(';') if mm else []) if t.strip()]
+            ctx.broke(ob, f'2-D spline model and implementation disagree on {vals[0] if vals else "?"}: {[meta[s0 + i] for i in idx[:3]]}')
+    if not bad:
+        ctx.discharged.append(ob)
+    return bad
+
+
+
 def prefix_fact(ctx):
     """The abstraction `slice (V r) p = V (min r p)`: the first p+1 columns of polyvander(x, r) ARE
     polyvander(x, p), bit for bit (sampled contract of numpy.polynomial.polynomial.polyvander)."""
@@ -772,7 +956,7 @@ def run(ctx):
         '(true under the GIL; per-object-locked dict stores in free-threaded CPython); races inside NumPy/SciPy/numba C code, the memory '
         'model of free-threaded CPython and non-atomic multi-word stores are outside the proof',
         'Python evaluation order of attribute accesses is recorded from real calls (harness/c04trace.py patches __getattribute__/__setattr__ '
-        'of _Algorithm, _Algorithm2D, _PolyHelper(2D), SplineBasis(2D) for the duration of a run; no edit of /repo) and compared exactly',
+        'of _Algorithm, _Algorithm2D, _PolyHelper(2D), SplineBasis(2D) incl. the lazy SplineBasis2D._basis cell, for the duration of a run; no edit of /repo) and compared exactly',
         'construction of a new _PolyHelper / SplineBasis touches only thread-private memory until the publishing store (checked: writes to a '
         'SplineBasis outside its constructor, and writes to fitter attributes outside the modelled cells, break the correspondence)',
         'value abstraction: Vandermonde = key of its order, pinv = key of the matrix it was computed from, x = (length, has duplicates); '
@@ -787,12 +971,13 @@ def run(ctx):
     t2 = time.time()
     bad2 = refuted_cases(ctx)
     bad3 = model2d_cases(ctx)
+    bad4 = spline2d_cases(ctx)
     t3 = time.time()
     budget = 1 if (ok and not ctx.broken and ctx.tier == 'quick') else 4
     oracle(ctx, budget)
     ctx.extra['phase_seconds'] = {'build': round(t1 - t0), 'safe_region': round(t2 - t1), 'refuted_regions': round(t3 - t2),
                                   'oracle': round(time.time() - t3)}
-    ctx.note('NOT covered: 2-D polynomial / spline caches in Coq (_PolyHelper2D, SplineBasis2D: schedule replay against the serial result only; the 2-D first-call prologue IS modelled and proved); '
+    ctx.note('NOT covered: the 2-D polynomial cache in Coq (_PolyHelper2D: instrumented, pre-emption after every access replayed against the serial result only); the 2-D first-call prologue and the 2-D spline cache incl. the lazy basis ARE modelled and proved (as two models over disjoint cells); '
              'free-threaded builds / races inside C extensions; methods outside the listed ones are covered by the theorem only through '
              'the segment grammar (any sequence of prologue / _setup_polynomial / body reads / _setup_spline / _size,_shape,x reads); '
              f'oracle budget x{budget}')
